@@ -383,6 +383,13 @@ def oracle(case, obs):
         st, out = stp['st'], stp['out']
         if op[0] == 'addvar' and out == 'ok':
             declared.append(op[1])
+            # "the dtype it was created with": the dtype asked for (for models: the model's default when none is given)
+            want = op[3] or (case.get('dreq') if case['kind'] != 'vc' else None)
+            got = [v[1] for v in st['vars'] if v[0] == op[1]]
+            if want and got and got[0] is not None:
+                kind = got[0][0] if isinstance(got[0], list) else got[0]
+                if kind != {'f': 'F', 'i': 'I', 'b': 'B', 's': 'U'}[want]:
+                    bad('add_variable|dtype-not-imposed', 'op %d: add_variable(%s, dtype=%s) created a series of dtype %s' % (i, op[1], want, got[0]))
         rows = declared
         if (st['names'] if case['kind'] != 'vc' else st['index'][len(st['index']) - len(rows):]) != rows:
             bad('declaration-order', 'op %d %s: the object lists the variables %s, declared were %s' % (
